@@ -1,15 +1,20 @@
-(* C11 -- Segwit addresses follow BIP173/BIP350 ...   PARTIAL.
-   Proved here, for every human-readable part and every data part (no bound on lengths):
+(* C11 -- Segwit addresses follow BIP173/BIP350 ...   PARTIAL (only the <= 4 substitution clause is left).
+   Proved here, for every human-readable part, version and program (no bound on lengths beyond the BIP's own 90):
      * the regenerated CHARSET, generator words and Bech32m constant are the BIP's;
-     * the checksum bech32_create_checksum produces always verifies, under the constant it was made for
-       (systematic encoding: appending six symbols xors pack(symbols) into the zero-extended state),
-       so version 0 addresses carry the Bech32 constant and versions 1..16 the Bech32m constant;
-     * the polymod state stays below 2^30 and the checksum consists of six 5-bit symbols.
-   NOT proved (decided only by the correspondence run and the Spec-level checker evaluated in Coq on
-   the implementation's outputs, see DESIGN.md): decode o encode = id for all programs, the rejection
-   rules of decode, and the <= 4 substitution error-detection clause (its statement is kept visible
-   below as a Definition, not as a theorem). *)
-From BHW Require Import Lib.Base Lib.ListAux Model.Helper Model.Bech32M Spec.Bech32 Proofs.Bech32.
+     * the checksum bech32_create_checksum produces always verifies, under the constant it was made for, and it is
+       the ONLY six-symbol suffix that verifies (checksum_unique);
+     * convertbits 8->5 (pad) followed by 5->8 (no pad) is the identity on byte strings, and 5->8 (no pad) accepts a
+       symbol string only when it is the canonical 8->5 regrouping of its output (zero padding of < 5 bits);
+     * decode (encode hrp v prog) = (v, prog) for every legal (v, |prog|), every lower-case hrp of 1..18 printable
+       characters (C11_decode_encode), version 0 under the Bech32 constant and 1..16 under Bech32m;
+     * conversely decode hrp s = (v, prog) implies (v, |prog|) legal, s in a single case, |s| <= 90 and
+       encode hrp v prog = lower(s)  (C11_decode_sound): so decode accepts nothing but what encode emits, which
+       yields the refusals of mixed case, other prefixes, the wrong constant, bad padding and over-long strings
+       as corollaries; and an illegal (version, length) never yields an address (C11_illegal_none; versions >= 0:
+       Python's negative indexing makes CHARSET[-31..-16] emit addresses for versions 1..16, outside the property's domain).
+   NOT proved: the <= 4 substitution error-detection clause (kept visible below as a Definition; decided by the
+   correspondence run: complete enumeration through linearity in the Spec-level checker plus sampled end-to-end). *)
+From BHW Require Import Lib.Base Lib.ListAux Model.Helper Model.Bech32M Spec.Bech32 Proofs.Bech32 Proofs.Convertbits Proofs.Bech32RT.
 From BHWGen Require Import Consts.
 
 Theorem C11_constants_are_bip :
@@ -30,10 +35,68 @@ Theorem C11_create_checksum_symbols : forall hrp data spec,
   Forall (fun c => 0 <= c < 32) (bech32_create_checksum hrp data spec).
 Proof. exact create_checksum_symbols. Qed.
 
-(* the full statements that remain unproved (kept visible; see the header) *)
-Definition C11_decode_encode_statement : Prop :=
-  forall hrp v prog s, Spec.Bech32.legal v (length prog) = true -> wf_bytes prog ->
-    encode hrp v prog = Ok (Some s) -> decode hrp s = Some (v, prog).
+Theorem C11_checksum_unique : forall hrp data c6 spec,
+  hrp_ok hrp -> data_ok data -> length c6 = 6%nat -> Forall (fun c => 0 <= c < 32) c6 ->
+  bech32_verify_checksum hrp (data ++ c6) = Some spec -> c6 = bech32_create_checksum hrp data spec.
+Proof. exact checksum_unique. Qed.
+
+Theorem C11_convertbits_roundtrip : forall prog, wf_bytes prog ->
+  exists conv, convertbits prog 8 5 true = Some conv /\ Forall (fun x => 0 <= x < 32) conv /\
+               5 * Z.of_nat (length conv) < 8 * Z.of_nat (length prog) + 5 /\
+               convertbits conv 5 8 false = Some prog.
+Proof. exact convertbits_roundtrip. Qed.
+
+Theorem C11_convertbits_canonical : forall data out,
+  Forall (fun x => 0 <= x < 32) data -> convertbits data 5 8 false = Some out ->
+  wf_bytes out /\ convertbits out 8 5 true = Some data.
+Proof. exact convertbits_5_8_sound. Qed.
+
+(* hrp_lower hrp: every character in 33..126 and none in 'A'..'Z' *)
+Theorem C11_decode_encode : forall hrp v prog,
+  hrp <> [] -> hrp_lower hrp -> (length hrp <= 18)%nat ->
+  Spec.Bech32.legal v (length prog) = true -> wf_bytes prog ->
+  exists s, encode hrp v prog = Ok (Some s) /\ decode hrp s = Some (v, prog).
+Proof. exact decode_encode. Qed.
+
+Theorem C11_decode_sound : forall hrp s v prog,
+  decode hrp s = Some (v, prog) ->
+  Spec.Bech32.legal v (length prog) = true /\ wf_bytes prog /\ (length s <= 90)%nat /\
+  (map lower_c s = s \/ map upper_c s = s) /\
+  encode hrp v prog = Ok (Some (map lower_c s)).
+Proof. exact decode_sound. Qed.
+
+Theorem C11_encode_some : forall hrp v prog s,
+  0 <= v -> wf_bytes prog -> encode hrp v prog = Ok (Some s) ->
+  Spec.Bech32.legal v (length prog) = true /\ decode hrp s = Some (v, prog).
+Proof. exact encode_some. Qed.
+
+Theorem C11_illegal_none : forall hrp v prog,
+  0 <= v -> wf_bytes prog -> Spec.Bech32.legal v (length prog) = false ->
+  forall s, encode hrp v prog <> Ok (Some s).
+Proof. exact encode_illegal_none. Qed.
+
+Theorem C11_rejects_mixed_case : forall hrp s,
+  map lower_c s <> s -> map upper_c s <> s -> decode hrp s = None.
+Proof. exact decode_rejects_mixed_case. Qed.
+
+Theorem C11_rejects_long : forall hrp s, (90 < length s)%nat -> decode hrp s = None.
+Proof. exact decode_rejects_long. Qed.
+
+Theorem C11_rejects_other_prefix : forall hrp s h data spec,
+  bech32_decode s = Some (h, data, spec) -> h <> hrp -> decode hrp s = None.
+Proof. exact decode_rejects_other_prefix. Qed.
+
+Theorem C11_rejects_wrong_constant : forall hrp s v rest spec,
+  bech32_decode s = Some (hrp, v :: rest, spec) ->
+  spec <> (if v =? 0 then BECH32 else BECH32M) -> decode hrp s = None.
+Proof. exact decode_rejects_wrong_constant. Qed.
+
+Theorem C11_padding_canonical : forall hrp s v prog,
+  decode hrp s = Some (v, prog) ->
+  exists conv spec, convertbits prog 8 5 true = Some conv /\ bech32_decode s = Some (hrp, v :: conv, spec).
+Proof. exact decode_padding_canonical. Qed.
+
+(* the statement that remains unproved (kept visible; see the header) *)
 Definition C11_detects_le4_statement : Prop :=
   forall hrp s s' v prog, decode hrp s = Some (v, prog) -> length s' = length s ->
     (* s' differs from s in 1..3 data characters, or in 4 without switching between version 0 and non-0 *)
@@ -48,3 +111,15 @@ Print Assumptions C11_constants_are_bip.
 Print Assumptions C11_checksum_valid.
 Print Assumptions C11_polymod_bound.
 Print Assumptions C11_create_checksum_symbols.
+Print Assumptions C11_checksum_unique.
+Print Assumptions C11_convertbits_roundtrip.
+Print Assumptions C11_convertbits_canonical.
+Print Assumptions C11_decode_encode.
+Print Assumptions C11_decode_sound.
+Print Assumptions C11_encode_some.
+Print Assumptions C11_illegal_none.
+Print Assumptions C11_rejects_mixed_case.
+Print Assumptions C11_rejects_long.
+Print Assumptions C11_rejects_other_prefix.
+Print Assumptions C11_rejects_wrong_constant.
+Print Assumptions C11_padding_canonical.
